@@ -49,6 +49,7 @@ func plans(id, tier string) (Plan, bool) {
 			jobs = append(jobs, Job{Pkg: pkgV2, Harness: "c01_sequences", Params: "t=" + t, Shards: pick(2, 8)})
 		}
 		jobs = append(jobs, Job{Pkg: pkgV2, Harness: "c01_lengths", Shards: 16})
+		jobs = append(jobs, Job{Pkg: pkgV2, Harness: "c01_refrains", Shards: 16})
 		for _, t := range []string{"0.7", "0.8", "0.9"} {
 			jobs = append(jobs, Job{Pkg: pkgV2, Harness: "c01_composites", Params: "t=" + t, Shards: 2})
 		}
@@ -80,6 +81,7 @@ func plans(id, tier string) (Plan, bool) {
 			{Pkg: pkgV2, Harness: "c03_corpus", Params: "t=0.8;families=window;split=4", Shards: 16},
 			{Pkg: pkgV2, Harness: "c03_corpus", Params: "t=0.5;families=" + map[bool]string{false: "exact", true: "exact,edit1,truncate,scenario;ndocs=16"}[th], Shards: pick(6, 16)},
 			{Pkg: pkgV2, Harness: "c03_corpus", Params: "t=0.8;families=selfrepeat;ndocs=" + fmt.Sprint(pick(120, 431)), Shards: 16},
+			{Pkg: pkgV2, Harness: "c03_corpus", Params: "t=0.8;families=deeplines,wordset;split=3;ndocs=" + fmt.Sprint(pick(100, 431)), Shards: 16},
 			{Pkg: pkgV2, Harness: "c03_bytes", Shards: pick(2, 8)},
 			{Pkg: pkgV2, Harness: "c03_names", Shards: 1},
 		}}, true
@@ -209,6 +211,7 @@ func plans(id, tier string) (Plan, bool) {
 			jobs = append(jobs, Job{Pkg: pkgV2, Harness: "c10_total", Params: "shape=3;maxlen=3;ts=all", Shards: 16, MaxProcs: 2})
 		}
 		jobs = append(jobs, Job{Pkg: pkgV2, Harness: "c10_window", Shards: 16})
+		jobs = append(jobs, Job{Pkg: pkgV2, Harness: "c10_wordsets", Shards: 16})
 		// every trace phase switched on (diagnostic code on the same paths)
 		jobs = append(jobs, Job{Pkg: pkgV2, Harness: "c10_total", Params: fmt.Sprintf("shape=3;maxlen=%d;trace=all", pick(2, 3)), Shards: pick(4, 16), MaxProcs: 2})
 		return Plan{Level: "exploration", Jobs: jobs}, true
@@ -231,6 +234,7 @@ func plans(id, tier string) (Plan, bool) {
 			{Pkg: pkgSC, Harness: "c13_occurrence", Instr: "v1", Shards: 16},
 			{Pkg: pkgSC, Harness: "c13_addvalue", Instr: "v1", Shards: pick(8, 16)},
 			{Pkg: pkgSC, Harness: "c13_history", Instr: "v1", Shards: pick(4, 16)},
+			{Pkg: pkgSC, Harness: "c13_many", Instr: "v1", Shards: pick(8, 16)},
 		}}, true
 	case "C14":
 		var jobs []Job
